@@ -196,6 +196,19 @@ pub fn filter_above_empty_grouping_set(q: &Query) -> bool {
                 if s.where_.is_some() && s.from.as_ref().map(derived_empty_set).unwrap_or(false) {
                     *found = true;
                 }
+                // a JOIN … ON over such a derived table (the ON condition may be / fold to a column-free predicate)
+                fn join_on_over(t: &TableRef, found: &mut bool) {
+                    if let TableRef::Join { left, right, on, .. } = t {
+                        if on.is_some() && (derived_empty_set(left) || derived_empty_set(right)) {
+                            *found = true;
+                        }
+                        join_on_over(left, found);
+                        join_on_over(right, found);
+                    }
+                }
+                if let Some(t) = &s.from {
+                    join_on_over(t, found);
+                }
             }
             SetExpr::SetOp { left, right, .. } => {
                 set(left, found);
